@@ -182,6 +182,11 @@ class PosePath3D(object):
                 self._poses_se3.append(self._poses_se3[j].dot(rel_poses[i]))
         else:
             self._poses_se3 = [np.dot(t, p) for p in self.poses_se3]
+        if not lie.is_se3(t) and lie.is_sim3(t):
+            # A similarity scales the positions, but the orientations have to
+            # stay valid rotations: remove the scale from the rotation blocks.
+            for p in self._poses_se3:
+                p[:3, :3] = p[:3, :3] / lie.sim3_scale(p)
         self._positions_xyz, self._orientations_quat_wxyz \
             = se3_poses_to_xyz_quat_wxyz(self.poses_se3)
 
